@@ -424,7 +424,7 @@ def same(a, b):
     if isinstance(a, tuple) or isinstance(b, tuple):
         return isinstance(a, tuple) and isinstance(b, tuple) and len(a) == len(b) and all(same(x, y) for x, y in zip(a, b))
     a, b = np.asarray(a, dtype=float), np.asarray(b, dtype=float)
-    return a.shape == b.shape and bool(np.allclose(a, b, rtol=1e-12, atol=1e-12, equal_nan=True))
+    return a.shape == b.shape and bool(np.allclose(a, b, rtol=1e-11, atol=1e-11, equal_nan=True))
 kinds = {{nd[1]: nd[2] for nd in spec["nodes"] if nd[0] == "var"}}
 npd = {{k: np.array(v, dtype=(np.int64 if kinds.get(k, "bint") == "bint" else np.float64)) for k, v in data.items()}}
 expr = build(spec)
@@ -435,6 +435,8 @@ with np.errstate(all="ignore"):
         program = compile_funsor(expr)
     except NotImplementedError:
         program = None                      # a decline is allowed
+    except Exception as e:
+        program = None; FAILS = True; print("compile_funsor raised", repr(e))
     if program is not None:
         try:
             variants = [("program", program), ("pickle", pickle.loads(pickle.dumps(program)))]
@@ -512,7 +514,11 @@ def check_case(ctx, spec, data, use_driver=True, stream="clean"):
     reach = reachable_kinds(spec)
     rk = lambda kind: any(spec["nodes"][i][0] == kind for i in reach)
     has_trans = any(spec["nodes"][i][0] == "un" and spec["nodes"][i][1] in TRANS_UN for i in reach)
-    tol = 1e-12 if has_trans else 0.0
+    # exact comparison only where float arithmetic is exact whatever the evaluation order (dyadic data under
+    # add/sub/neg/abs/max/min); eager funsor may evaluate x/y as x*reciprocal(y) and reassociate products
+    inexact = has_trans or any(spec["nodes"][i][0] in ("bin", "contr") and spec["nodes"][i][1] in ("mul", "truediv")
+                               for i in reach)
+    tol = 1e-11 if inexact else 0.0
     batched = rk("btensor")
     with np.errstate(all="ignore"):
         oracle = spec_eval(spec, npd_all)
@@ -526,6 +532,11 @@ def check_case(ctx, spec, data, use_driver=True, stream="clean"):
         except NotImplementedError as e:
             ctx.count("declined:compile" + (":batched-tensor" if batched else ""))
             ctx.case(nontrivial_key=None)
+            return True
+        except Exception as e:
+            # the model (and `compile_correct`) say every expression of this fragment compiles
+            ctx.fail("input", "C18.compile-raises", witness=wit, got=repr(e), expected="an OpProgram",
+                     python=snippet("compile", spec, data))
             return True
         # ---- specification value -------------------------------------------------------------
         try:
@@ -874,6 +885,9 @@ def check_trace(ctx, spec, use_driver=True):
             declined = "returns-input"
         except (ValueError, AssertionError) as e:
             declined = type(e).__name__
+        except Exception as e:
+            ctx.fail("input", "C18.trace_function-raises", witness=wit, got=repr(e), expected="a program", python=py)
+            return
         if declined is None:
             variants = [("traced", traced)]
             try:
